@@ -4,7 +4,7 @@
 # untouched so other work can go on. Own MIR dir, MIR target, replay target and evidence dir (kept under /verif/.cache/seedrun and removed by
 # `run_seed_scratch.sh --clean`). Equivalent to tools/run_seed.sh (which patches /repo in place) in everything the checks see.
 set -u
-S=/verif/.cache/seedrun; WT=/tmp/seedtree
+SLOT=${SEEDSLOT:-}; S=/verif/.cache/seedrun$SLOT; WT=/tmp/seedtree$SLOT     # SEEDSLOT=2 gives a second, independent scratch tree
 if [ "${1:-}" = "--clean" ]; then git -C /repo worktree remove --force $WT 2>/dev/null; git -C /repo worktree prune; rm -rf $S; exit 0; fi
 P=$(readlink -f $1); shift
 mkdir -p $S/mir $S/evidence
